@@ -425,3 +425,74 @@ Example C05_conforms_field_codecs_needs_plain_children :
     encode Ex xs (q "NumsHolder") m = ROk (JObj [(s "inner", JObj [(s "big", JStr (s "5"))])]) /\
     to_json Ex xs (q "NumsHolder") m = ROk (JObj [(s "inner", JObj [(s "big", JNum 5)])]).
 Proof. exact CodecCompose.conforms_field_codecs_needs_plain_children. Qed.
+
+(* ---- C05_conforms for the root-unwrap codec in general: a message whose only field carries (sebuf.http.unwrap),
+   with un-annotated element messages (or scalar elements of the kinds encoding/json and protojson write alike), is
+   sent exactly as the documented mapping says — the bare array / object of its field, wrappers collapsed to the
+   array of their unwrap field — for every well-typed value in [root_conf].  [root_conf] (computable, on the
+   message and the value) excludes the nil scalar slice / map written as null (D5RootNull, at the root AND inside
+   a wrapper), 64-bit integers / enums / non-finite floats among scalar elements (D5UnwrapSibling) and annotated
+   element messages. *)
+From SebufProofs Require UnwrapRootFacts UnwrapRootConforms UnwrapRootExamples.
+Theorem C05_conforms_unwrap_root_partial : forall E sc tn md m,
+  str_eqb tn ts_name = false -> is_wkt_other tn = false ->
+  find_message (all_messages sc) tn = Some md -> owner_of sc md = Own FtUnwrapRoot ->
+  buildable sc FtUnwrapRoot md = true ->
+  wt sc (KMessage tn) (FM m) = true ->
+  UnwrapRootConforms.root_conf sc md m = true ->
+  encode E sc tn m = to_json E sc tn m.
+Proof. exact UnwrapRootConforms.conforms_unwrap_root. Qed.
+Print Assumptions C05_conforms_unwrap_root_partial.
+
+(* non-vacuity: [root_hyps] contains owner, buildable, wt and root_conf; encode = to_json = j on each *)
+Example C05_unwrap_root_nonvacuous_xs :
+  (let m := [(s "bars", FL [UnwrapRootExamples.leaf1; FM []])] in
+   let j := JArr [UnwrapRootExamples.leaf1_json; JObj []] in
+   UnwrapRootExamples.root_hyps xs (q "BarList") m /\
+   encode Ex xs (q "BarList") m = ROk j /\ to_json Ex xs (q "BarList") m = ROk j /\
+   decode Ex xs (q "BarList") j = ROk m /\ norm xs (q "BarList") m = m) /\
+  (let m := [(s "vals", FL [vstr "a"; vstr "b"])] in
+   let j := JArr [JStr (s "a"); JStr (s "b")] in
+   UnwrapRootExamples.root_hyps xs (q "Strs") m /\
+   encode Ex xs (q "Strs") m = ROk j /\ to_json Ex xs (q "Strs") m = ROk j /\
+   decode Ex xs (q "Strs") j = ROk m /\ norm xs (q "Strs") m = m) /\
+  encode Ex xs (q "BarList") [] = ROk (JArr []) /\ decode Ex xs (q "BarList") (JArr []) = ROk [] /\
+  encode Ex xs (q "Strs") [] = ROk JNull /\ decode Ex xs (q "Strs") JNull = ROk [].
+Proof. exact UnwrapRootExamples.unwrap_root_nonvacuous_xs. Qed.
+
+(* refutations *)
+(* a map key type other than string: the emitted Go does not compile (C13), the model declines *)
+Example C05_conforms_unwrap_root_needs_buildable :
+  let m := [(s "by_n", FMap [(VInt 1, UnwrapRootExamples.leaf1)])] in
+  (exists md, find_message (all_messages UnwrapRootExamples.uws) (q "IntKeys") = Some md /\ owner_of UnwrapRootExamples.uws md = Own FtUnwrapRoot /\
+              buildable UnwrapRootExamples.uws FtUnwrapRoot md = false /\ UnwrapRootConforms.root_conf UnwrapRootExamples.uws md m = true) /\
+  wt UnwrapRootExamples.uws (KMessage (q "IntKeys")) (FM m) = true /\
+  (exists w, encode Ex UnwrapRootExamples.uws (q "IntKeys") m = RUnm w) /\
+  to_json Ex UnwrapRootExamples.uws (q "IntKeys") m = ROk (JObj [(s "1", UnwrapRootExamples.leaf1_json)]).
+Proof. exact UnwrapRootExamples.conforms_unwrap_root_needs_buildable. Qed.
+(* outside root_conf: the nil scalar list at the root (D5RootNull), 64-bit integers as scalar elements
+   (D5UnwrapSibling), and the nil scalar list INSIDE a wrapper — written as null where the mapping says [] — which
+   defects_C05 does not tag *)
+Example C05_conforms_unwrap_root_needs_root_conf :
+  (exists md, find_message (all_messages xs) (q "Strs") = Some md /\ UnwrapRootConforms.root_conf xs md [] = false) /\
+  defects_C05 xs (q "Strs") [] = [D5RootNull] /\
+  encode Ex xs (q "Strs") [] = ROk JNull /\ to_json Ex xs (q "Strs") [] = ROk (JArr []) /\
+  (let m := [(s "bs", FL [vint 5])] in
+   (exists md, find_message (all_messages UnwrapRootExamples.uws) (q "Bigs") = Some md /\ UnwrapRootConforms.root_conf UnwrapRootExamples.uws md m = false) /\
+   wt UnwrapRootExamples.uws (KMessage (q "Bigs")) (FM m) = true /\ defects_C05 UnwrapRootExamples.uws (q "Bigs") m = [D5UnwrapSibling] /\
+   encode Ex UnwrapRootExamples.uws (q "Bigs") m = ROk (JArr [JNum 5]) /\ to_json Ex UnwrapRootExamples.uws (q "Bigs") m = ROk (JArr [JStr (s "5")])) /\
+  (let m := [(s "by_k", FMap [(VStr (s "b"), FM [(s "total", vint 3)])])] in
+   (exists md, find_message (all_messages UnwrapRootExamples.uws) (q "TagCombo") = Some md /\ owner_of UnwrapRootExamples.uws md = Own FtUnwrapRoot /\
+               buildable UnwrapRootExamples.uws FtUnwrapRoot md = true /\ UnwrapRootConforms.root_conf UnwrapRootExamples.uws md m = false) /\
+   wt UnwrapRootExamples.uws (KMessage (q "TagCombo")) (FM m) = true /\ defects_C05 UnwrapRootExamples.uws (q "TagCombo") m = [] /\
+   encode Ex UnwrapRootExamples.uws (q "TagCombo") m = ROk (JObj [(s "b", JNull)]) /\
+   to_json Ex UnwrapRootExamples.uws (q "TagCombo") m = ROk (JObj [(s "b", JArr [])])).
+Proof. exact UnwrapRootExamples.conforms_unwrap_root_needs_root_conf. Qed.
+(* a list naming the field twice is not a message value (wt excludes it); on it Impl and Spec differ *)
+Example C05_conforms_unwrap_root_needs_wt :
+  let m := [(s "bars", FL [UnwrapRootExamples.leaf1]); (s "bars", FL [FM []])] in
+  (exists md, find_message (all_messages xs) (q "BarList") = Some md /\ UnwrapRootConforms.root_conf xs md m = true) /\
+  wt xs (KMessage (q "BarList")) (FM m) = false /\
+  encode Ex xs (q "BarList") m = ROk (JArr [UnwrapRootExamples.leaf1_json]) /\
+  (exists w, to_json Ex xs (q "BarList") m = RUnm w).
+Proof. exact UnwrapRootExamples.conforms_unwrap_root_needs_wt. Qed.
